@@ -516,8 +516,13 @@ def ord_sample_finalise(repo, tier="quick"):
     fi = repo.function("sample:MoleculeSampler.sample")
     ph = Phases(fi, {"grow": ["sample:MoleculeSampler.add_fragment"], "hydrogens": ["pysmiles_utils:rebuild_h_atoms"],
                      "sort": ["graph_utils:sort_nodes_by_attr"], "names": ["graph_utils:set_atom_names_atomistic"]})
-    for lab in ("grow", "hydrogens", "sort"):
-        ph.require(lab)
+    ph.require("grow")
+    missing = [lab for lab in ("hydrogens", "sort") if not ph.sites[lab]]
+    if missing:
+        why_m = {"hydrogens": "all-atom samples are returned without their hydrogens (valence completeness)",
+                 "sort": "the sample is returned without canonical numbering: atoms of a fragment copy are not contiguous"}
+        return [ob_fail("ORD.sample-finalise", fi, construct="sample() never calls %s" % {"hydrogens": "rebuild_h_atoms", "sort": "sort_nodes_by_attr"}[lab],
+                        instance="missing:" + lab, reason=why_m[lab]) for lab in missing]
     # the resolution flag: the instance attribute that __init__ fills from its `all_atom` parameter
     ini = repo.function("sample:MoleculeSampler.__init__")
     flag = None
@@ -599,7 +604,9 @@ def ord_compute_mass(repo, tier="quick"):
             if v[0] == "sub" and v[2] == ("const", "AtomicMass") and v[1][0] == "sub" and v[1][1] == ("ext", "pysmiles.PTE"):
                 acc = (n, v[1][2])
     if acc is None:
-        raise AnalysisError("anchor vanished: no `mass += PTE[element]['AtomicMass']` in compute_mass", fi.where())
+        obs.append(ob_fail("ORD.compute-mass", fi, construct="no accumulation of PTE[element]['AtomicMass']", instance="sum",
+                           reason="the atomic masses are never added up: element-derived fragment masses are wrong, so the stop rule compares the wrong total"))
+        return obs
     n, elem = acc
     from .common import node_attr, enclosing_loops
     na = node_attr(elem)
